@@ -419,6 +419,21 @@ func (c *compiler) freeTemporaries(scp *scope, force bool) {
 	}
 }
 
+// frees the unprotected temporaries of scp right away and removes them from scp
+// used for the temporaries of loop headers, which must not be freed (again)
+// by every continue, break or iteration of the loop
+func (c *compiler) freeTemporariesNow(scp *scope) {
+	kept := scp.temporaries[:0]
+	for _, v := range scp.temporaries {
+		if v.protected {
+			kept = append(kept, v)
+		} else {
+			c.freeNonPrimitive(v.val, v.typ)
+		}
+	}
+	scp.temporaries = kept
+}
+
 // helper to exit a scope
 // frees all local variables
 // returns the enclosing scope
@@ -2418,7 +2433,10 @@ func (c *compiler) VisitWhileStmt(s *ast.WhileStmt) ast.VisitResult {
 		}
 
 		c.cbb, c.scp = condBlock, c.exitScope(c.scp) // the condition is not in scope
+		// the condition is evaluated on every iteration, so its temporaries have to be freed on every iteration
+		c.scp = newScope(c.scp)
 		cond, _, _ := c.evaluate(s.Condition)
+		c.scp = c.exitScope(c.scp)
 		leaveBlock := c.cf.NewBlock("")
 		c.commentNode(c.cbb, s, "")
 		c.cbb.NewCondBr(cond, body, leaveBlock)
@@ -2503,6 +2521,8 @@ func (c *compiler) VisitForStmt(s *ast.ForStmt) ast.VisitResult {
 	} else { // stepsize was present, so compile it
 		incrementer, incrementerType, _ = c.evaluate(s.StepSize)
 	}
+	// the temporaries of the initial value and the stepsize are not needed in the loop
+	c.freeTemporariesNow(c.scp)
 
 	condBlock := c.cf.NewBlock("")
 	incrementBlock := c.cf.NewBlock("")
@@ -2553,15 +2573,20 @@ func (c *compiler) VisitForStmt(s *ast.ForStmt) ast.VisitResult {
 
 	c.cbb = loopUp
 	// we are counting up, so compare less-or-equal
+	// the end value is evaluated on every iteration, so its temporaries have to be freed on every iteration
+	c.scp = newScope(c.scp)
 	to, toType, _ := c.evaluate(s.To)
 	cond = new_IorF_comp(enum.IPredSLE, enum.FPredOLE, c.cbb.NewLoad(indexTyp.IrType(), indexVar), indexTyp, to, toType, to)
+	c.scp = c.exitScope(c.scp)
 	c.commentNode(c.cbb, s, "")
 	c.cbb.NewCondBr(cond, forBody, leaveBlock)
 
 	c.cbb = loopDown
 	// we are counting down, so compare greater-or-equal
+	c.scp = newScope(c.scp)
 	to, toType, _ = c.evaluate(s.To)
 	cond = new_IorF_comp(enum.IPredSGE, enum.FPredOGE, c.cbb.NewLoad(indexTyp.IrType(), indexVar), indexTyp, to, toType, to)
+	c.scp = c.exitScope(c.scp)
 	c.commentNode(c.cbb, s, "")
 	c.cbb.NewCondBr(cond, forBody, leaveBlock)
 
@@ -2587,6 +2612,8 @@ func (c *compiler) VisitForRangeStmt(s *ast.ForRangeStmt) ast.VisitResult {
 	c.claimOrCopy(temp, in, inTyp, isTempIn)
 	in, _ = c.scp.addTemporary(temp, inTyp)
 	c.scp.protectTemporary(in)
+	// the other temporaries needed to evaluate s.In are not needed in the loop
+	c.freeTemporariesNow(c.scp)
 
 	var (
 		iter_ptr      value.Value // pointer used for iteration
